@@ -375,14 +375,14 @@ theorem not_direct_of_live {s : S} (h7 : K7 s) (hcl : s.cleaned = false) (hl : 0
   | false => rfl
   | true => have := ((h7 hcl).2 hd).2.2.2.2.2.1; omega
 
-theorem not_direct_of_phase {s : S} (h7 : K7 s) (hcl : s.cleaned = false) (hp : s.phase ≠ .WaitNotify) :
+theorem not_direct_of_phase {s : S} (h7 : K7 s) (hcl : s.cleaned = false) (hp : ¬ (s.phase = .WaitNotify ∨ s.phase = .Retry)) :
     s.direct = false := by
   cases hd : s.direct with
   | false => rfl
   | true => exact absurd ((h7 hcl).2 hd).1 hp
 
-/-- away from `WaitNotify` no local reply is pending: K7 carries over to any state with the same two flags -/
-theorem k7_frame {s s' : S} (h7 : K7 s) (hcl : s.cleaned = false) (hnw : s.phase ≠ .WaitNotify)
+/-- away from `WaitNotify` and the back-off no local reply is pending: K7 carries over to any state with the same two flags -/
+theorem k7_frame {s s' : S} (h7 : K7 s) (hcl : s.cleaned = false) (hnw : ¬ (s.phase = .WaitNotify ∨ s.phase = .Retry))
     (hsr : s'.setupRetry = s.setupRetry) (hd : s'.direct = s.direct) : K7 s' :=
   k7_intro (by rw [hsr]; exact (h7 hcl).1) (by rw [hd]; exact not_direct_of_phase h7 hcl hnw)
 
